@@ -18,3 +18,7 @@ var (
 func verifOptSnapshot(c *Compiler) ([]byte, map[int]parser.Pos) { return nil, nil }
 
 func verifOptReport(c *Compiler, node parser.Node, in []byte, inMap map[int]parser.Pos) {}
+
+func verifSym(ev string, t *SymbolTable, name string, s *Symbol, depth int, ok bool) {}
+
+func verifSymEnd(t *SymbolTable, free []*Symbol, max int) {}
